@@ -673,6 +673,28 @@ class Model:
             return self._deepcopy(interp, args[0], deep=path.endswith('deepcopy'))
         if path == 'functools.partial':
             return _Partial(args[0], args[1:], kwargs)
+        if path == 'itertools.accumulate' and args and not any(isinstance(a, Opaque) for a in args):
+            seq = interp.iterate(args[0], node)
+            func = args[1] if len(args) > 1 else kwargs.get('func')
+            out = []
+            have = 'initial' in kwargs and kwargs['initial'] is not None
+            total = kwargs.get('initial')
+            if have:
+                out.append(total)
+            for x in seq:
+                if not have:
+                    total, have = x, True
+                elif func is None:
+                    total = interp.binop('add', lambda p_, q_: p_ + q_, total, x, node)
+                else:
+                    total = interp.call(func, [total, x], {}, node)
+                out.append(total)
+            return out
+        if path == 'itertools.chain' and not any(isinstance(a, Opaque) for a in args):
+            return [x for a in args for x in interp.iterate(a, node)]
+        if path == 'itertools.islice' and len(args) >= 2 and all(isinstance(a, int) or a is None for a in args[1:]):
+            import itertools
+            return list(itertools.islice(interp.iterate(args[0], node), *args[1:]))
         if path.startswith('typing.') or path.startswith('dataclasses.'):
             return Opaque(path)
         # unknown external callee: arguments escape
